@@ -98,6 +98,14 @@ def gen_scripts(ctx, quick, after=False, outs=("ok", "ok", "ok", "err"), per=Non
                                           {"id": "i2", "kind": "worker", "out": "ok", "done": 1}],
                                 "hasStopFn": True, "dep": True, "mode": mode, "probes": True, "waitAgain": False, "directed": "prestart",
                                 "policy": ["i2", "stopper", "stopper", "stopper", "stopper", "fn", "i1", "i2", "fn", "stopper", "stopper"]})
+        # directed: a service worker whose function has failed and which sits in a long restart back-off when its module is
+        # stopped (by the shutdown and by module management): the back-off must end with the module's stop
+        for out in ("err", "panic_str"):
+            for mode in ("shutdown", "manage"):
+                scripts.append({"items": [{"id": "i1", "kind": "service", "out": out, "done": 1, "bo": 6000},
+                                          {"id": "i2", "kind": "worker", "out": "ok", "done": 1}],
+                                "hasStopFn": True, "dep": True, "mode": mode, "probes": True, "waitAgain": False, "directed": "backoff",
+                                "policy": ["i1", "stopper", "stopper", "stopper", "stopper", "fn", "i2", "fn", "stopper", "stopper"]})
     return scripts
 
 
